@@ -41,8 +41,8 @@ GEN = os.path.join(common.LEAN, "ParolModel", "Generated", "ParLiteralRes.lean")
 FINDINGS = {
     "F25a": ("nonterminal-user-type-without-alias",
              "Symbol::format drops the user type of a non-terminal occurrence unless the type is the target of a %user_type alias "
-             "(`S: \"a\" B : MyType; B: \"b\";` is rendered `S: \"a\" B;` — crates/parol/data/valid/user_type_on_nonterminal-style grammars lose the type; "
-             "a type equal to the %t_type is dropped too)"),
+             "(`S: \"a\" B : MyType; B: \"b\";` is rendered `S: \"a\" B;`; the repository's own crates/parol/tests/data/valid/typed4.par "
+             "loses its type this way; a type equal to the %t_type is dropped too)"),
     "F25b": ("clipped-terminal-with-lookahead",
              "Terminal::format prints the clip operator before the lookahead (`S: 'a' ?= 'b'^;` is rendered `S: 'a'^ /* Clipped */ ?= 'b';`), "
              "which parol.par rejects (TokenExpression [ASTControl]): the rendered text is not readable"),
@@ -249,7 +249,7 @@ def extra(ctx, state):
     stats["unexplained"] = len(unexplained)
     stats["generated_file"] = "lean/ParolModel/Generated/ParLiteralRes.lean (" + STATE.get("dump", "?") + ")"
     stats["rule"] = ("documents: 26 hand-written boundary documents (one witness per listed finding), every *.par under examples/, "
-                     "crates/parol/data/valid, crates/parol/src/parser, crates/parol/tests/data, and 2400 (quick) / 12000 (thorough) random documents (3 of 4 avoid the triggers of the listed findings): "
+                     "crates/parol/data/valid, crates/parol/src/parser, crates/parol/tests/data, and 2400 (quick) / 40000 (thorough) random documents (3 of 4 avoid the triggers of the listed findings): "
                      "1..3 scanner states, 1..5 primary terminals + 0..2 further non-terminals, literals of all three kinds from pools with escapes and "
                      "delimiter-like characters, lookahead, ^, @member, : Type, %user_type/%nt_type/%t_type, <S1, S2> state lists, %line_comment/"
                      "%block_comment (all quotings)/%auto_newline_off/%auto_ws_off/%allow_unmatched/%skip/%on … %enter|%push|%pop per state, %title/"
@@ -272,7 +272,7 @@ SPEC = {
     "attribute": lambda c, a, why: None,
     "extra": extra,
     "level": "translation_validation",
-    "rule": "printer tie: 3000 (quick) / 20000 (thorough) random symbols: fmt-la (lookahead expressions of the three kinds), fmt-n (non-terminal occurrences), "
+    "rule": "printer tie: 3000 (quick) / 60000 (thorough) random symbols: fmt-la (lookahead expressions of the three kinds), fmt-n (non-terminal occurrences), "
             "fmt-t (terminals: kind, body from pools or random over an alphabet of escapes and delimiters, attribute, lookahead, member, user type, "
             "state list, resolver tables); non-trivial = non-empty body; distinct = distinct request lines. Round trips: see coverage.round_trip.rule",
     "assumptions": [
